@@ -372,6 +372,15 @@ def run_case(case, rec):
             if np.max(np.abs(exp)) > 1e-12:
                 rec.nontrivial((kind, eqt, dx, tuple(hyperparams), tuple(case["widths"]), n_out, ip, case["seed"]))
             rec.set_sample(kind=kind, eq_type=eqt, hyperparams=hyperparams, z=z, got=got, expected=exp)
+            if eqt == "ODE":
+                # a scalar time and a length-one time are the same call (how the ODE losses vmap the network)
+                rec.count("scalar_time_calls")
+                try:
+                    got0 = np.asarray(call_u(u, z, params, scalar_t=True))
+                    if got0.shape != got.shape or not close(got0, got, 1e-12, 1e-14):
+                        rec.violation("hyper/scalar-vs-length-one-time", "u(t scalar) = %s but u(t (1,)) = %s" % (got0, got))
+                except guard.Crash as c:
+                    rec.violation("hyper/scalar-time-rejected", "hyper-network wrapper called with a scalar time: %s" % c)
             if got.shape != exp.shape or not close(got, exp, 1e-9, 1e-11):
                 rec.violation("hyper/%s" % ("weight-layout" if len(leaves) > 2 else "value"),
                               "HYPERPINN output %s, manual hyper->split(leaf order)->forward gives %s (hyperparams %s)"
